@@ -161,8 +161,11 @@ solveNormalizedCubic (T r, T s, T t, T x[3])
             return sign * std::pow (sign * a, T (1) / x);
         };
 
-        T u = real_root (-q / 2 + std::sqrt (D), 3);
-        T v = -p / (T (3) * u);
+        // u^3 and v^3 are -q/2 +- sqrt(D); take for u the one of larger
+        // magnitude, which cannot cancel to zero, and get v from u*v = -p/3.
+        T sqrtD = std::sqrt (D);
+        T u     = real_root (q > 0 ? -q / 2 - sqrtD : -q / 2 + sqrtD, 3);
+        T v     = -p / (T (3) * u);
 
         x[0] = u + v - r / 3;
         return 1;
